@@ -222,3 +222,4 @@ for _p in ('C08', 'C09'):
 PROPS['C03']['units'] = PROPS['C03']['units'] + [_s.SrcCalloutsNative]
 for _p in ('C08', 'C09'):
     PROPS[_p]['units'] = PROPS[_p]['units'] + [cli.GetFileListNative]
+PROPS['C04']['units'] = PROPS['C04']['units'] + [plugins.PluginWorldNative]
